@@ -1,7 +1,9 @@
 // ---- spliced by /verif (contracts/c19_datagram) : contracts on the real outgoing datagram queue ----------
 //
-// Bound of every harness here: at most ONE datagram in the queue, payload <= 70 bytes (so that both the 1-byte
-// and the 2-byte length encodings occur), packet space <= 80 bytes.  Payload bytes, sizes and limits symbolic.
+// Bound of every harness here: at most ONE datagram in the queue before the call.  Payload length symbolic
+// 0..=2^32 (1-, 2- and 4-byte length fields occur), packet space and peer maximum any usize.  A payload is a
+// `Bytes` over a static buffer; "unchanged" is identity of (pointer, length) -- the code under contract never
+// copies payload bytes except into the packet, and the packet model records that write's source slice.
 #[cfg(kani)]
 mod verif_c19_writer {
     use qbase::error::AppError;
@@ -10,7 +12,13 @@ mod verif_c19_writer {
 
     //@include pkt_model.rs
 
-    const DMAX: usize = 8;
+    /// payload lengths are symbolic up to 4 GiB: a payload is a `Bytes` whose pointer is valid for 8 bytes and whose
+    /// LENGTH is symbolic.  None of the functions under contract reads payload bytes (they queue, clone and hand the
+    /// slice on; the packet model reads at most 8 bytes of a write of <= 8 bytes) -- if one did, CBMC's pointer
+    /// checks would fail the harness, so the trick cannot hide anything.
+    const DMAX: usize = 1 << 32;
+    static BIG: [u8; 8] = [0; 8];
+    static BIG2: [u8; 8] = [0; 8];
 
     /// stub for `ArcSendWakers::wake_all_by` (BTreeMap walk over the per-path wakers: outside Kani; waking the
     /// sending task is C16's matter and listed unverified there)
@@ -36,17 +44,31 @@ mod verif_c19_writer {
         }
     }
 
+    /// stub for qbase's `impl From<Error> for std::io::Error` (= `io::Error::new(BrokenPipe, e)`): keeps the kind,
+    /// drops the payload.  The real one boxes the error as `Box<dyn Error + Send + Sync>`; its type-erased drop
+    /// function then becomes a candidate target of EVERY raw `fn(*const ())` call in the harness (every Waker
+    /// clone/wake/drop), each dragging in the drop glue of all error types of the crate graph -- 15 min / 10 GB
+    /// per harness.  Only `kind()` of the returned io::Error is under contract.
+    fn stub_error_to_io(e: Error) -> io::Error {
+        core::mem::forget(e);
+        io::Error::from(io::ErrorKind::BrokenPipe)
+    }
+
     /// stub for `format!` (human-readable text of the error; not under contract)
     fn stub_format(_args: core::fmt::Arguments<'_>) -> String {
         String::new()
     }
 
-    /// an arbitrary payload of symbolic length <= DMAX with symbolic bytes; (bytes, a copy of the content)
-    fn any_payload() -> (Bytes, &'static [u8; DMAX], usize) {
-        let content: &'static [u8; DMAX] = Box::leak(Box::new(kani::any()));
+    /// an arbitrary payload: symbolic length <= DMAX over one of two static buffers; (bytes, pointer, length)
+    fn any_payload_in(buf: &'static [u8; 8]) -> (Bytes, *const u8, usize) {
         let n: usize = kani::any();
         kani::assume(n <= DMAX);
-        (Bytes::from_static(&content[..n]), content, n)
+        let b = Bytes::from_static(unsafe { core::slice::from_raw_parts(buf.as_ptr(), n) });
+        let p = b.as_ptr();
+        (b, p, n)
+    }
+    fn any_payload() -> (Bytes, *const u8, usize) {
+        any_payload_in(&BIG)
     }
 
     fn outgoing_with(queue: VecDeque<Bytes>) -> DatagramOutgoing {
@@ -57,9 +79,9 @@ mod verif_c19_writer {
         o.0.lock().unwrap().as_ref().ok().map(|w| w.datagrams.len())
     }
 
-    /// size on the wire of a varint holding `v` (RFC 9000 section 16), for v < 2^14
+    /// size on the wire of a varint holding `v` (RFC 9000 section 16)
     fn vsize(v: usize) -> usize {
-        if v < 64 { 1 } else { 2 }
+        if v < (1 << 6) { 1 } else if v < (1 << 14) { 2 } else if v < (1 << 30) { 4 } else { 8 }
     }
 
     /// contract of `new_writer(max)`: max == 0 (peer did not advertise the extension) => Unsupported.
@@ -68,6 +90,7 @@ mod verif_c19_writer {
     #[kani::stub(tracing::__macro_support::__is_enabled, stub_is_enabled)]
     #[kani::stub(tracing::Event::dispatch, stub_dispatch)]
     #[kani::stub(<qbase::error::Error as core::clone::Clone>::clone, error_clone_stub)]
+    #[kani::stub(<std::io::Error as core::convert::From<qbase::error::Error>>::from, stub_error_to_io)]
     #[kani::unwind(2)]
     #[kani::stub(qbase::net::tx::ArcSendWakers::wake_all_by, noop_wake)]
     fn new_writer_contract() {
@@ -98,6 +121,7 @@ mod verif_c19_writer {
     #[kani::stub(tracing::__macro_support::__is_enabled, stub_is_enabled)]
     #[kani::stub(tracing::Event::dispatch, stub_dispatch)]
     #[kani::stub(<qbase::error::Error as core::clone::Clone>::clone, error_clone_stub)]
+    #[kani::stub(<std::io::Error as core::convert::From<qbase::error::Error>>::from, stub_error_to_io)]
     #[kani::unwind(2)]
     #[kani::stub(qbase::net::tx::ArcSendWakers::wake_all_by, noop_wake)]
     #[kani::stub(alloc::fmt::format, stub_format)]
@@ -106,8 +130,7 @@ mod verif_c19_writer {
         let max: usize = kani::any();
         kani::assume(max != 0); // established by new_writer
         let w = DatagramWriter { writer: o.0.clone(), max_datagram_frame_size: max };
-        let (data, _content, n) = any_payload();
-        let ptr = data.as_ptr();
+        let (data, ptr, n) = any_payload();
 
         let r = w.send_bytes(data);
 
@@ -139,16 +162,15 @@ mod verif_c19_writer {
     #[kani::stub(tracing::__macro_support::__is_enabled, stub_is_enabled)]
     #[kani::stub(tracing::Event::dispatch, stub_dispatch)]
     #[kani::stub(<qbase::error::Error as core::clone::Clone>::clone, error_clone_stub)]
+    #[kani::stub(<std::io::Error as core::convert::From<qbase::error::Error>>::from, stub_error_to_io)]
     #[kani::unwind(2)]
     #[kani::stub(qbase::net::tx::ArcSendWakers::wake_all_by, noop_wake)]
     #[kani::stub(alloc::fmt::format, stub_format)]
     fn send_bytes_keeps_order() {
-        let (first, _c1, n1) = any_payload();
-        let p1 = first.as_ptr();
+        let (first, p1, n1) = any_payload();
         let o = outgoing_with(VecDeque::from([first]));
         let w = DatagramWriter { writer: o.0.clone(), max_datagram_frame_size: 1 + DMAX };
-        let (second, _c2, n2) = any_payload();
-        let p2 = second.as_ptr();
+        let (second, p2, n2) = any_payload_in(&BIG2);
         assert!(w.send_bytes(second).is_ok(), "C19.writer.send.sup.fits");
         let g = o.0.lock().unwrap();
         let q = &g.as_ref().unwrap().datagrams;
@@ -164,6 +186,7 @@ mod verif_c19_writer {
     #[kani::stub(tracing::__macro_support::__is_enabled, stub_is_enabled)]
     #[kani::stub(tracing::Event::dispatch, stub_dispatch)]
     #[kani::stub(<qbase::error::Error as core::clone::Clone>::clone, error_clone_stub)]
+    #[kani::stub(<std::io::Error as core::convert::From<qbase::error::Error>>::from, stub_error_to_io)]
     #[kani::unwind(2)]
     #[kani::stub(qbase::net::tx::ArcSendWakers::wake_all_by, noop_wake)]
     #[kani::stub(alloc::fmt::format, stub_format)]
@@ -180,7 +203,7 @@ mod verif_c19_writer {
         assert!(poisoned_with == Some(e1 as u64), "C17.datagram.writer.first_error_wins");
         match kani::any::<u8>() % 3 {
             0 => {
-                let (data, _c, _n) = any_payload();
+                let (data, _p, _n) = any_payload();
                 let r = w.send_bytes(data);
                 assert!(r.as_ref().is_err_and(|e| e.kind() == io::ErrorKind::BrokenPipe), "C17.datagram.writer.send_fails_after_error");
                 core::mem::forget(r);
@@ -191,10 +214,9 @@ mod verif_c19_writer {
                 core::mem::forget(r);
             }
             _ => {
-                let mut pkt = Pkt::any();
-                let before = pkt.len;
+                let mut pkt = Pkt::with_space(kani::any());
                 let r = o.try_load_data_into(&mut pkt);
-                assert!(r == Err(Signals::empty()) && pkt.len == before && pkt.frames == 0, "C17.datagram.writer.nothing_emitted_after_error");
+                assert!(r == Err(Signals::empty()) && pkt.written == 0 && pkt.frames == 0, "C17.datagram.writer.nothing_emitted_after_error");
             }
         }
         core::mem::forget(w);
@@ -202,36 +224,31 @@ mod verif_c19_writer {
     }
 
     /// contract of `try_load_data_into(packet)` (queue: none or one datagram of L bytes; A = space left):
-    ///  * nothing queued            => Err(TRANSPORT), nothing written;
+    ///  * nothing queued              => Err(TRANSPORT), nothing written;
     ///  * A <= L (not even type+data) => Err(CONGESTION), nothing written, datagram stays queued;
     ///  * otherwise exactly ONE frame is emitted and the datagram leaves the queue:
     ///      - its payload is the datagram, whole and unchanged, declared length == L;
-    ///      - with-length form (0x31, varint L, data) if it fits, nothing else written;
+    ///      - with-length form (0x31, varint L, data) if it fits, and then nothing else is written;
     ///      - length-less form (0x30, data) ONLY if the with-length form does not fit; then PADDING (zero bytes)
-    ///        comes first and the frame ends exactly at the end of the packet (it must be the last thing);
-    ///      - never more bytes than the space left; bytes before the write position untouched.
+    ///        comes FIRST and the frame ends exactly at the end of the packet (it must be the last thing);
+    ///      - never more bytes than the space left (asserted inside the packet model on every write).
     #[kani::proof]
-    #[kani::stub(tracing::callsite::DefaultCallsite::interest, stub_interest)]
-    #[kani::stub(tracing::__macro_support::__is_enabled, stub_is_enabled)]
-    #[kani::stub(tracing::Event::dispatch, stub_dispatch)]
-    #[kani::stub(<qbase::error::Error as core::clone::Clone>::clone, error_clone_stub)]
-    #[kani::unwind(3)]
+    #[kani::unwind(9)]
     #[kani::stub(qbase::net::tx::ArcSendWakers::wake_all_by, noop_wake)]
     fn try_load_contract() {
-        let (data, content, l) = any_payload();
+        let (data, ptr, l) = any_payload();
         let has: bool = kani::any();
         let o = outgoing_with(if has { VecDeque::from([data]) } else { VecDeque::new() });
-        let mut pkt = Pkt::any();
-        let (start, a) = (pkt.len, pkt.limit - pkt.len);
+        let a: usize = kani::any();
+        let mut pkt = Pkt::with_space(a);
 
         let r = o.try_load_data_into(&mut pkt);
 
-        let written = pkt.len - start;
-        assert!(written <= a, "C19.load.never_writes_beyond_packet_space");
+        assert!(pkt.written <= a && pkt.space == a - pkt.written, "C19.load.never_writes_beyond_packet_space");
         if !has {
-            assert!(r == Err(Signals::TRANSPORT) && written == 0 && pkt.frames == 0, "C19.load.empty_queue_emits_nothing");
+            assert!(r == Err(Signals::TRANSPORT) && pkt.written == 0 && pkt.frames == 0, "C19.load.empty_queue_emits_nothing");
         } else if a <= l {
-            assert!(r == Err(Signals::CONGESTION) && written == 0 && pkt.frames == 0, "C19.load.too_small_packet_emits_nothing");
+            assert!(r == Err(Signals::CONGESTION) && pkt.written == 0 && pkt.frames == 0, "C19.load.too_small_packet_emits_nothing");
             assert!(queue_len(&o) == Some(1), "C19.load.unsent_datagram_stays_queued");
         } else {
             assert!(r.is_ok(), "C19.load.emits_when_it_fits");
@@ -241,72 +258,74 @@ mod verif_c19_writer {
             let (enc_len, declared, dlen) = pkt.last.unwrap();
             assert!(declared == l as u64 && dlen == l, "C19.load.frame_length_is_datagram_length");
             assert!(enc_len == with_len_fits, "C19.load.lengthless_form_only_when_length_does_not_fit");
-            let b = &pkt.buf;
-            let payload_at;
+            assert!(!pkt.pad_after_write && !pkt.pad_nonzero, "C19.load.padding_comes_first");
+            // first write: the frame type, one byte
+            assert!(pkt.wlen[0] == 1, "C19.load.sup.type_is_one_byte");
+            let payload_write;
             if with_len_fits {
-                assert!(written == 1 + vsize(l) + l, "C19.load.with_length_form_writes_type_len_data");
-                assert!(b[start] == 0x31, "C19.load.with_length_form_type_byte");
-                if l < 64 {
-                    assert!(b[start + 1] == l as u8, "C19.load.length_field_is_varint_of_len");
-                } else {
-                    assert!(b[start + 1] == 0x40 | (l >> 8) as u8 && b[start + 2] == (l & 0xff) as u8, "C19.load.length_field_is_varint_of_len");
+                assert!(pkt.pad == 0, "C19.load.with_length_form_is_not_padded");
+                assert!(pkt.wbytes[0][0] == 0x31, "C19.load.with_length_form_type_byte");
+                assert!(pkt.nwrites == 3 && pkt.wlen[1] == vsize(l), "C19.load.with_length_form_writes_type_len_data");
+                let lb = &pkt.wbytes[1];
+                // RFC 9000 section 16: two size bits, then the value big-endian
+                let mut decoded: u64 = (lb[0] & 0x3f) as u64;
+                let mut k = 1;
+                while k < 8 {
+                    if k < vsize(l) {
+                        decoded = (decoded << 8) | lb[k] as u64;
+                    }
+                    k += 1;
                 }
-                payload_at = start + 1 + vsize(l);
+                assert!(decoded == l as u64 && 1usize << (lb[0] >> 6) == vsize(l), "C19.load.length_field_is_varint_of_len");
+                assert!(pkt.written == 1 + vsize(l) + l, "C19.load.with_length_form_writes_type_len_data");
+                payload_write = 2;
             } else {
-                assert!(written == a, "C19.load.lengthless_frame_ends_the_packet");
-                let pad = a - 1 - l;
-                let i: usize = kani::any();
-                kani::assume(i < pad);
-                assert!(b[start + i] == 0, "C19.load.padding_comes_first");
-                assert!(b[start + pad] == 0x30, "C19.load.lengthless_form_type_byte");
-                payload_at = start + pad + 1;
-                kani::cover!(pad > 0, "C19.load.reach_padding_before_lengthless");
+                assert!(pkt.wbytes[0][0] == 0x30, "C19.load.lengthless_form_type_byte");
+                assert!(pkt.nwrites == 2, "C19.load.lengthless_form_writes_type_and_data");
+                assert!(pkt.pad == a - 1 - l, "C19.load.lengthless_frame_is_padded_to_fill");
+                assert!(pkt.written == a && pkt.space == 0, "C19.load.lengthless_frame_ends_the_packet");
+                payload_write = 1;
+                kani::cover!(pkt.pad > 0, "C19.load.reach_padding_before_lengthless");
             }
-            let i: usize = kani::any();
-            kani::assume(i < l);
-            assert!(b[payload_at + i] == content[i], "C19.load.payload_is_the_datagram_unchanged");
-            assert!(payload_at + l == pkt.len, "C19.load.payload_is_last_part_of_frame");
+            assert!(pkt.wptr[payload_write] == ptr && pkt.wlen[payload_write] == l, "C19.load.payload_is_the_datagram_unchanged");
         }
-        let j: usize = kani::any();
-        kani::assume(j < start || (j >= pkt.len && j < CAP));
-        assert!(pkt.buf[j] == 0xEE, "C19.load.bytes_outside_the_frame_untouched");
-        kani::cover!(has && a > l && a >= 1 + vsize(l) + l && l >= 64, "C19.load.reach_two_byte_length");
+        kani::cover!(has && a >= 1 + vsize(l) + l && l >= 64 && l < 16384, "C19.load.reach_two_byte_length");
+        kani::cover!(has && a >= 1 + vsize(l) + l && l >= 16384 && l < (1 << 30), "C19.load.reach_four_byte_length");
+        kani::cover!(has && a >= 1 + vsize(l) + l && l >= (1 << 30), "C19.load.reach_eight_byte_length");
         kani::cover!(has && a > l && a < 1 + vsize(l) + l, "C19.load.reach_lengthless");
-        kani::cover!(has && a == l + 1 && l == 0, "C19.load.reach_empty_datagram_in_one_byte");
-        kani::cover!(has && a == l, "C19.load.reach_exactly_too_small");
+        kani::cover!(has && a == 1 && l == 0, "C19.load.reach_empty_datagram_in_one_byte");
+        kani::cover!(has && a == l && l > 0, "C19.load.reach_exactly_too_small");
         core::mem::forget(o);
     }
 
     /// THE PROPERTY, composed: a datagram accepted by `send_bytes` under the peer's limit M is emitted as a frame
     /// of total size <= M ("within the peer's size limit").  The with-length form costs 1 + varint(L) + L bytes,
     /// `send_bytes` only reserves 1 + L.
-    /// FINDING C19.limit.emitted_frame_within_peer_max: for M - vsize(L) <= L < M the datagram is accepted and
-    /// (in a roomy packet) sent as a frame of M + 1 or M + 2 bytes; a peer running this same code then closes the
+    /// FINDING C19.limit.emitted_frame_within_peer_max: for M - varint_size(L) <= L < M the datagram is accepted
+    /// and (in a roomy packet) sent as a frame LARGER than M; a peer running this same code then closes the
     /// connection with PROTOCOL_VIOLATION (recv_datagram_contract).  Excluded here, pinned in
     /// `emitted_frame_exceeds_peer_max_finding`.
     #[kani::proof]
+    #[kani::unwind(2)]
+    #[kani::stub(qbase::net::tx::ArcSendWakers::wake_all_by, noop_wake)]
+    #[kani::stub(alloc::fmt::format, stub_format)]
     #[kani::stub(tracing::callsite::DefaultCallsite::interest, stub_interest)]
     #[kani::stub(tracing::__macro_support::__is_enabled, stub_is_enabled)]
     #[kani::stub(tracing::Event::dispatch, stub_dispatch)]
-    #[kani::stub(<qbase::error::Error as core::clone::Clone>::clone, error_clone_stub)]
-    #[kani::unwind(3)]
-    #[kani::stub(qbase::net::tx::ArcSendWakers::wake_all_by, noop_wake)]
-    #[kani::stub(alloc::fmt::format, stub_format)]
     fn emitted_frame_within_peer_max() {
         let o = outgoing_with(VecDeque::new());
         let max: usize = kani::any();
         kani::assume(max != 0);
         let w = DatagramWriter { writer: o.0.clone(), max_datagram_frame_size: max };
-        let (data, _content, l) = any_payload();
+        let (data, _p, l) = any_payload();
         kani::assume(w.send_bytes(data).is_ok());
         kani::assume(!(l + 1 + vsize(l) > max)); // bad region of the finding
-        let mut pkt = Pkt::any();
-        let start = pkt.len;
+        let mut pkt = Pkt::with_space(kani::any());
         if o.try_load_data_into(&mut pkt).is_ok() {
             let (enc_len, declared, _) = pkt.last.unwrap();
             let frame_size = 1 + if enc_len { vsize(declared as usize) } else { 0 } + declared as usize;
             assert!(frame_size <= max, "C19.limit.emitted_frame_within_peer_max");
-            assert!(frame_size <= pkt.len - start, "C19.limit.sup.frame_size_accounted");
+            assert!(frame_size == pkt.written - pkt.pad, "C19.limit.sup.frame_size_accounted");
             kani::cover!(frame_size == max, "C19.limit.reach_frame_exactly_at_peer_max");
         }
         core::mem::forget(w);
@@ -314,22 +333,21 @@ mod verif_c19_writer {
     }
 
     #[kani::proof]
+    #[kani::unwind(2)]
+    #[kani::stub(qbase::net::tx::ArcSendWakers::wake_all_by, noop_wake)]
+    #[kani::stub(alloc::fmt::format, stub_format)]
     #[kani::stub(tracing::callsite::DefaultCallsite::interest, stub_interest)]
     #[kani::stub(tracing::__macro_support::__is_enabled, stub_is_enabled)]
     #[kani::stub(tracing::Event::dispatch, stub_dispatch)]
-    #[kani::stub(<qbase::error::Error as core::clone::Clone>::clone, error_clone_stub)]
-    #[kani::unwind(3)]
-    #[kani::stub(qbase::net::tx::ArcSendWakers::wake_all_by, noop_wake)]
-    #[kani::stub(alloc::fmt::format, stub_format)]
     fn emitted_frame_exceeds_peer_max_finding() {
         let o = outgoing_with(VecDeque::new());
         let max: usize = kani::any();
         kani::assume(max != 0);
         let w = DatagramWriter { writer: o.0.clone(), max_datagram_frame_size: max };
-        let (data, _content, l) = any_payload();
+        let (data, _p, l) = any_payload();
         kani::assume(w.send_bytes(data).is_ok());
         kani::assume(l + 1 + vsize(l) > max); // confined to the bad region
-        let mut pkt = Pkt::any();
+        let mut pkt = Pkt::with_space(kani::any());
         if o.try_load_data_into(&mut pkt).is_ok() {
             let (enc_len, declared, _) = pkt.last.unwrap();
             let frame_size = 1 + if enc_len { vsize(declared as usize) } else { 0 } + declared as usize;
